@@ -3,6 +3,7 @@ package props
 import (
 	"bytes"
 	"fmt"
+	"math"
 	"time"
 
 	"github.com/cosmos/cosmos-sdk/types/query"
@@ -130,9 +131,12 @@ func (d *c11DFS) explore(n *c11Node, depth int) {
 	}
 	// propose: index in {next-1, next, next+1} x L2 block in {last-1, last, last+1, last+7} x two roots x signer
 	for _, idx := range []uint64{next - 1, next, next + 1} {
-		for _, l2 := range []uint64{last - 1, last, last + 1, last + 7} {
-			if last == 0 && l2 > last+7 {
+		for _, l2 := range []uint64{last - 1, last, last + 1, last + 7, math.MaxUint64} {
+			if last == 0 && l2 > last+7 && l2 != math.MaxUint64 {
 				continue // wrapped
+			}
+			if l2 == math.MaxUint64 && (idx != next || len(n.log) > 2) {
+				continue // the largest block number is offered at the next index of short logs only (bounds the fan-out)
 			}
 			for alt := 0; alt < 2; alt++ {
 				for _, who := range []sim.Account{d.proposer, d.chall} {
@@ -216,12 +220,12 @@ func c11Exhaustive(run *mon.Run, depth int) {
 func init() { register("C11", "exploration", checkC11) }
 
 func checkC11(run *mon.Run, rng *mon.Rand, thorough bool) {
-	run.Rule = "(a) bounded-exhaustive: every operation sequence up to depth 5 (quick) / 7 (thorough) over {propose at next-1/next/next+1 with L2 block last-1/last/last+1/last+7, fresh or byte-identical root, by proposer or challenger; delete 0..next by challenger or a stranger; next block +0/+1s/+period-1s/+period} on copy-on-write branches with state-digest memoisation, every accept/reject decision and the complete observable log (paginated list, single queries, next index, last finalized output) compared with a sequential model after every step; (b) seeded random histories of propose / delete / re-propose with indices in {next-1,next,next+1}, L2 blocks around the last one, all roles, over 2-3 bridges with different periods and boundary-aligned block times; the structural invariant of the stored log is read through the paginated query after every step. Distinct non-trivial = (operation, log length, final-prefix length / deletion index) pairs"
+	run.Rule = "(a) bounded-exhaustive: every operation sequence up to depth 5 (quick) / 6 (thorough) over {propose at next-1/next/next+1 with L2 block last-1/last/last+1/last+7/2^64-1 (arithmetic wraps), fresh or byte-identical root, by proposer or challenger; delete 0..next by challenger or a stranger; next block +0/+1s/+period-1s/+period} on copy-on-write branches with state-digest memoisation, every accept/reject decision and the complete observable log (paginated list, single queries, next index, last finalized output) compared with a sequential model after every step; (b) seeded random histories of propose / delete / re-propose with indices in {next-1,next,next+1}, L2 blocks around the last one, all roles, over 2-3 bridges with different periods and boundary-aligned block times; the structural invariant of the stored log is read through the paginated query after every step. Distinct non-trivial = (operation, log length, final-prefix length / deletion index) pairs"
 	run.Assumptions = []string{"the output log is observed only through Query/OutputProposals (all pages), Query/LastFinalizedOutput and GetNextOutputIndex"}
 	for _, c := range []string{"C11.contiguous", "C11.l2_blocks_increase", "C11.l1_times_monotone", "C11.log_matches_model", "C11.final_prefix", "C11.propose_only_at_next", "C11.propose_higher_l2_block", "C11.delete_sets_next"} {
 		run.Declare(c, 10)
 	}
-	c11Exhaustive(run, pick(thorough, 5, 7))
+	c11Exhaustive(run, pick(thorough, 5, 6))
 	hist := pick(thorough, 24, 300)
 	steps := pick(thorough, 250, 500)
 	for h := 0; h < hist && !run.TooMany(); h++ {
